@@ -273,6 +273,86 @@ def fnMatch (rx : Rx) (full : Bool) (s p : V) : V :=
     .val (.bool ((if full then rx.fullmatch p [] s else rx.search p s).getD false))
   | _, _ => .val (.bool false)
 
+/-- the JSON name of a value's type, as `typeof` / `type` report it (`single_number_type=True`) -/
+def typeName : J → Str
+  | .null => "null".toList
+  | .bool _ => "boolean".toList
+  | .int _ | .flt _ => "number".toList
+  | .str _ => "string".toList
+  | .arr _ => "array".toList
+  | .obj _ => "object".toList
+
+/-- `NodeList.values_or_singular()` on the nodes' values: the one node's value, or the list of the values -/
+def valuesOrSingular (vs : List J) : J :=
+  match vs with
+  | [v] => v
+  | _ => .arr vs
+
+/-- `TypeOf.__call__` on the values of the node list: "undefined" for a query that selects nothing -/
+def typeofVals (vs : List J) : Str :=
+  if vs.isEmpty then "undefined".toList else typeName (valuesOrSingular vs)
+
+/-- `TypeOf.__call__(nodes)` (typeof.py). The argument is nodes-typed: anything but a node list is refused at compile
+    time (`.undef` here: not reachable when well-typed). -/
+def fnTypeof : V → V
+  | .nodes ns => .val (.str (typeofVals (ns.map (·.val))))
+  | _ => .undef
+
+/-- the names `isinstance` / `is` accept for a value's type (is_instance.py) -/
+def typeAliases : J → List Str
+  | .null => ["null".toList, "nil".toList, "None".toList, "none".toList]
+  | .str _ => ["str".toList, "string".toList]
+  | .arr _ => ["array".toList, "list".toList, "sequence".toList, "tuple".toList]
+  | .obj _ => ["object".toList, "dict".toList, "mapping".toList]
+  | .bool _ => ["bool".toList, "boolean".toList]
+  | .int _ => ["number".toList, "int".toList]
+  | .flt _ => ["number".toList, "float".toList]
+
+/-- the type names that fit the values of a node list -/
+def aliasesOfVals (vs : List J) : List Str :=
+  if vs.isEmpty then ["undefined".toList, "missing".toList] else typeAliases (valuesOrSingular vs)
+
+/-- `IsInstance.__call__(nodes, t)`: `t` is value-typed (a string names a type; anything else names none). -/
+def fnIsInstance : V → V → V
+  | .nodes ns, t =>
+    match t with
+    | .val (.str s) => .val (.bool ((aliasesOfVals (ns.map (·.val))).contains s))
+    | _ => .val (.bool false)
+  | _, _ => .undef
+
+/-- `FunctionExtension.evaluate` after the arguments have been evaluated: the registered function applied to the
+    (unpacked) arguments; an unknown name, or a wrong number of arguments, is `UNDEFINED` (refused at compile time) -/
+def applyFn (rx : Rx) (name : Str) (vs : List V) : V :=
+  if name = "length".toList then
+    match vs with
+    | [a] => fnLength (unpackValue a)
+    | _ => .undef
+  else if name = "count".toList then
+    match vs with
+    | [a] => fnCount a
+    | _ => .undef
+  else if name = "value".toList then
+    match vs with
+    | [a] => fnValue a
+    | _ => .undef
+  else if name = "match".toList then
+    match vs with
+    | [a, b] => fnMatch rx true (unpackValue a) (unpackValue b)
+    | _ => .undef
+  else if name = "search".toList then
+    match vs with
+    | [a, b] => fnMatch rx false (unpackValue a) (unpackValue b)
+    | _ => .undef
+  else if name = "typeof".toList ∨ name = "type".toList then
+    match vs with
+    | [a] => fnTypeof a
+    | _ => .undef
+  else if name = "isinstance".toList ∨ name = "is".toList then
+    match vs with
+    | [a, b] => fnIsInstance a (unpackValue b)
+    | _ => .undef
+  else .undef
+
 /-! ## Selectors -/
 
 structure Env where
@@ -373,28 +453,7 @@ mutual
       .nodes (evalSegs env q [⟨[], env.rootTok, if fake then .arr [env.root] else env.root⟩])
     | .ctx q => .nodes (evalSegs env q [⟨[], env.rootTok, env.extra⟩])
     | .func name args =>
-      let vs := evalArgs env cur curKey args
-      if name = "length".toList then
-        match vs with
-        | [a] => fnLength (unpackValue a)
-        | _ => .undef
-      else if name = "count".toList then
-        match vs with
-        | [a] => fnCount a
-        | _ => .undef
-      else if name = "value".toList then
-        match vs with
-        | [a] => fnValue a
-        | _ => .undef
-      else if name = "match".toList then
-        match vs with
-        | [a, b] => fnMatch env.rx true (unpackValue a) (unpackValue b)
-        | _ => .undef
-      else if name = "search".toList then
-        match vs with
-        | [a, b] => fnMatch env.rx false (unpackValue a) (unpackValue b)
-        | _ => .undef
-      else .undef
+      applyFn env.rx name (evalArgs env cur curKey args)
     | .key =>
       match curKey with
       | none => .undef
